@@ -40,6 +40,17 @@ definition mirrors (under /repo/libs/core/include/fcppt/ unless noted):
 * `contMake`           — container/make.hpp: moves out of every argument, whatever its value category (documented "by moving"); used by
                          optional/to_container.hpp, which after fix 9030486 hands it its own copy of the element unless the optional is an rvalue
 
+* `gridMap`, `gridApply2`, `gridResize` — container/grid/map.hpp, apply.hpp (same sizes, else the empty grid), resize.hpp (every cell of the new grid:
+                         `move_if_rvalue<Grid>` of the old cell when it exists, else the user's `init`)
+* `treeCtor`, `treePushValue`, `treePushTree`, `treeRelease`, `treeMap` — container/tree/object_impl.hpp (`object(T&&)`/`object(T const&)`,
+                         `push_back(T&&)`/`(T const&)`/`(object&&)` through `insert`, `release`: `object ret(std::move(*_it)); erase`),
+                         container/tree/map.hpp (takes `tree const&`: the function always gets `Value const&`)
+* `optsFlag`, `optsOption` — /repo/libs/options/include/fcppt/options/flag_impl.hpp (after fix 986d19b the *stored* values are compared),
+                         option_impl.hpp: the constructors move their value arguments into the members
+                         (many_impl.hpp / argument_impl.hpp: the constructors take a parser / strings — no element values to observe)
+* `parseSequence`, `parseRepetition` — /repo/libs/parse/include/fcppt/parse/sequence_impl.hpp + detail/sequence_result.hpp, repetition_impl.hpp:
+                         the sub-results are moved into the tuple / vector (no arguments: every value is made by the user's converter)
+
 The user's functions (part of the harness, see harness/c05.cpp): given an rvalue they move it
 through (same identity), given an lvalue they read it and make a new value (`derive`).
 -/
@@ -55,6 +66,8 @@ inductive Op where
   | varMatch | varApply | varApply2 | varToOptional
   | tupMap | tupPushBack | tupConcat | arrMap | arrPushBack | arrJoin2 | arrJoin3 | arrFromRange
   | recMap | recPermute | recMultiplyDisjoint | contMake
+  | gridMap | gridApply2 | gridResize | treeCtor | treePushValue | treePushTree | treeRelease | treeMap
+  | optsFlag | optsOption | parseSequence | parseRepetition
   deriving DecidableEq, Repr, Inhabited
 
 /-- Arguments (value category, element identities in container order) and the operation's
@@ -95,6 +108,10 @@ def readAll (a n : Nat) : List Instr := (List.range n).map fun i => .read a i
 /-- the listed elements of `a`, in this order (`record::permute`) -/
 def gather (a : Nat) (idx : List Nat) (m : Mode) (d : Dest) : List Instr := idx.map fun i => .xfer a i m d
 
+/-- cell `k` (storage order) of a `w' × h'` grid resized from a `w × h` grid: the old cell when the position exists there, else `init` -/
+def gridCell (rv : Bool) (w h w' : Nat) (k : Nat) : Instr :=
+  if k % w' < w ∧ k / w' < h then .xfer 0 ((k / w') * w + k % w') (fwd rv) .res else .fresh (1000 + k) .res
+
 /-- `std::reverse(begin, end)`: ⌊n/2⌋ swaps -/
 def reverseInPlace (a n : Nat) : List Instr := (List.range (n / 2)).map fun i => .swap a i (n - 1 - i)
 
@@ -105,6 +122,8 @@ def prog (o : Op) (inp : Input) : List Instr :=
   let rv := inp.isRv
   let par0 := inp.par.headD 0
   let par1 := (inp.par.drop 1).headD 0
+  let par2 := (inp.par.drop 2).headD 0
+  let par3 := (inp.par.drop 3).headD 0
   match o with
   | .algMap => callAll (rv 0) 0 (n 0) .res
   | .fold => .xfer 1 0 .move .res :: deriveEach 0 (List.replicate (n 0) 1) .res
@@ -190,7 +209,22 @@ def prog (o : Op) (inp : Input) : List Instr :=
   | .arrJoin3 => xferAll 0 (n 0) (fwd (rv 0)) .res ++ xferAll 1 (n 1) (fwd (rv 1)) .res ++ xferAll 2 (n 2) (fwd (rv 2)) .res
   | .arrFromRange => if par0 = n 0 then xferAll 0 (n 0) (fwd (rv 0)) .res else []
   | .recPermute => gather 0 inp.par (fwd (rv 0)) .res
-  | .contMake => xferAll 0 (n 0) .move .res ++ xferAll 1 (n 1) .move .res
+  | .contMake | .optsFlag => xferAll 0 (n 0) .move .res ++ xferAll 1 (n 1) .move .res
+  -- grids: par = [w, h, …] (storage order: x fastest)
+  | .gridMap => callAll (rv 0) 0 (n 0) .res
+  | .gridApply2 =>
+    if par0 = par2 ∧ par1 = par3 then readAll 1 (n 1) ++ callAll (rv 0) 0 (n 0) .res else []
+  | .gridResize => (List.range (par2 * par3)).map (gridCell (rv 0) par0 par1 par2)
+  -- trees: the argument is the root value followed by the (leaf) children
+  | .treeCtor => xferAll 0 (n 0) (fwd (rv 0)) .res
+  | .treePushValue | .treePushTree => xferAll 1 (n 1) (fwd (rv 1)) (.arg 0)
+  | .treeRelease => [.pop 0 (par0 + 1) .res]
+  | .treeMap => deriveEach 0 (List.replicate (n 0) 1) .res
+  | .optsOption => xferAll 0 (n 0) .move .res
+  -- parse: par0 = length of the input; converter call j makes value 1000 + j
+  | .parseSequence =>
+    if 2 ≤ par0 then [.fresh 1000 .res, .fresh 1001 .res] else if par0 = 1 then [.fresh 1000 .drop] else []
+  | .parseRepetition => (List.range par0).map fun j => .fresh (1000 + j) .res
 
 def jn (b : Bool) : String := if b then "J" else "N"
 def sf (b : Bool) : String := if b then "S" else "F"
@@ -224,6 +258,8 @@ def tag (o : Op) (inp : Input) : String :=
   | .eithFirstSuccess => sf (inp.par.any (· == 1))
   | .varToOptional => jn (inp.par.headD 0 == (inp.par.drop 1).headD 0)
   | .arrFromRange => jn (inp.par.headD 0 == inp.size 0)
+  | .parseSequence => sf (2 ≤ inp.par.headD 0)
+  | .parseRepetition => "S"
   | _ => "-"
 
 /-! ## well-formed inputs -/
@@ -304,6 +340,21 @@ def shapeOk (o : Op) (inp : Input) : Bool :=
     inp.args.length == 1 && catIn inp 0 anyCat && inp.par.length == n 0 && decide inp.par.Nodup && inp.par.all (· < n 0)
   | .recMultiplyDisjoint => inp.args.length == 2 && catIn inp 0 anyCat && catIn inp 1 anyCat && inp.par.isEmpty
   | .contMake => inp.args.length == 2 && catIn inp 0 [.rv, .io] && catIn inp 1 [.rv, .io] && n 0 == 1 && n 1 == 1 && inp.par.isEmpty
+  | .gridMap => inp.args.length == 1 && catIn inp 0 anyCat && inp.par.length == 2 && inp.par.headD 0 * (inp.par.drop 1).headD 0 == n 0
+  | .gridApply2 =>
+    inp.args.length == 2 && catIn inp 0 anyCat && catIn inp 1 anyCat && inp.par.length == 4 &&
+      inp.par.headD 0 * (inp.par.drop 1).headD 0 == n 0 && (inp.par.drop 2).headD 0 * (inp.par.drop 3).headD 0 == n 1
+  | .gridResize =>
+    inp.args.length == 1 && catIn inp 0 anyCat && inp.par.length == 4 && inp.par.headD 0 * (inp.par.drop 1).headD 0 == n 0
+  | .treeCtor => inp.args.length == 1 && catIn inp 0 anyCat && n 0 == 1 && inp.par.isEmpty
+  | .treePushValue => inp.args.length == 2 && catIn inp 0 [.io] && catIn inp 1 anyCat && 1 ≤ n 0 && n 1 == 1 && inp.par.isEmpty
+  | .treePushTree => inp.args.length == 2 && catIn inp 0 [.io] && catIn inp 1 [.rv] && 1 ≤ n 0 && n 1 == 1 && inp.par.isEmpty
+  | .treeRelease => inp.args.length == 1 && catIn inp 0 [.io] && inp.par.length == 1 && inp.par.headD 0 + 1 < n 0
+  | .treeMap => inp.args.length == 1 && catIn inp 0 anyCat && 1 ≤ n 0 && inp.par.isEmpty
+  | .optsFlag => inp.args.length == 2 && catIn inp 0 [.rv] && catIn inp 1 [.rv] && n 0 == 1 && n 1 == 1 && inp.par.isEmpty
+  | .optsOption => inp.args.length == 1 && catIn inp 0 [.rv] && n 0 ≤ 1 && inp.par.isEmpty
+  | .parseSequence => inp.args.length == 0 && inp.par.length == 1 && inp.par.headD 0 ≤ 2
+  | .parseRepetition => inp.args.length == 0 && inp.par.length == 1
 
 def wf (o : Op) (inp : Input) : Bool := idsOk inp && shapeOk o inp
 
@@ -317,7 +368,9 @@ def Op.all : List Op :=
    .moveIf, .moveIfRvalue, .eithMap, .eithMapFailure, .eithBind, .eithMatch, .eithSuccessOpt, .eithFailureOpt, .eithFromOptional,
    .eithJoin, .eithApply2, .eithSequence, .eithFirstSuccess,
    .varMatch, .varApply, .varApply2, .varToOptional, .tupMap, .tupPushBack, .tupConcat, .arrMap, .arrPushBack, .arrJoin2, .arrJoin3,
-   .arrFromRange, .recMap, .recPermute, .recMultiplyDisjoint, .contMake]
+   .arrFromRange, .recMap, .recPermute, .recMultiplyDisjoint, .contMake,
+   .gridMap, .gridApply2, .gridResize, .treeCtor, .treePushValue, .treePushTree, .treeRelease, .treeMap,
+   .optsFlag, .optsOption, .parseSequence, .parseRepetition]
 
 def Op.name : Op → String
   | .algMap => "algmap" | .fold => "fold" | .foldBreak => "foldbrk" | .mapConcat => "mapcat" | .mapOptional => "mapopt"
@@ -334,5 +387,9 @@ def Op.name : Op → String
   | .tupMap => "tupmap" | .tupPushBack => "tuppush" | .tupConcat => "tupconcat"
   | .arrMap => "arrmap" | .arrPushBack => "arrpush" | .arrJoin2 => "arrjoin2" | .arrJoin3 => "arrjoin3" | .arrFromRange => "arrfromrange"
   | .recMap => "recmap" | .recPermute => "recpermute" | .recMultiplyDisjoint => "recmuldisj" | .contMake => "contmake"
+  | .gridMap => "gridmap" | .gridApply2 => "gridapply2" | .gridResize => "gridresize"
+  | .treeCtor => "treector" | .treePushValue => "treepushval" | .treePushTree => "treepushtree" | .treeRelease => "treerelease"
+  | .treeMap => "treemap" | .optsFlag => "optsflag" | .optsOption => "optsoption"
+  | .parseSequence => "parseseq" | .parseRepetition => "parserep"
 
 end Fcppt.C05
